@@ -532,6 +532,15 @@ pub fn run_check(engine: &dyn Engine, opts: &Options) -> i32 {
         .set("rule", J::str(info.rule))
         .set("samples", J::Arr(samples))
         .set("exhaustive", J::Bool(false))
+        .set(
+            "seeds",
+            J::obj()
+                .set("VERIF_SEED", J::u(opts.master_seed))
+                .set("derivation", J::str("job j runs under splitmix64(VERIF_SEED xor j*0x9E3779B97F4A7C15) (xor an engine constant); every plan of the job is drawn from that"))
+                .set("first_job_seed", J::Str(format!("{:016x}", crate::prng::derive(opts.master_seed, 0))))
+                .set("last_job_seed", J::Str(format!("{:016x}", crate::prng::derive(opts.master_seed, njobs.saturating_sub(1)))))
+                .set("jobs_per_hour", J::u(if wall > 0.0 { (results.len() as f64 * 3600.0 / wall) as u64 } else { 0 })),
+        )
         .set("jobs", J::u(results.len() as u64))
         .set("slowest_job_ms", J::u(slowest.load(Ordering::SeqCst)))
         .set("steps_executed", J::u(total.steps))
